@@ -23,6 +23,10 @@ def val(d, v, depth=0):
     if m:
         a, b = val(d, m.group(1), depth+1), val(d, m.group(2), depth+1)
         if a is not None and b is not None: return a | b
+    m = re.match(r'^(\w+)\s*\+\s*(\w+)$', v)
+    if m:
+        a, b = val(d, m.group(1), depth+1), val(d, m.group(2), depth+1)
+        if a is not None and b is not None: return a + b
     m = re.match(r'^(\w+)\s*<<\s*(\w+)$', v)
     if m:
         a, b = val(d, m.group(1), depth+1), val(d, m.group(2), depth+1)
